@@ -277,6 +277,8 @@ let parse_file (path : string) : Trace.tev list * stats =
              (match qparts v with
               | Some (nn, k) ->
                 let aliases = L.filter_map (fun kk -> if kk mod 2 = k mod 2 then Some (nat_of_int (200 + 10 * nn + kk)) else None) [0; 1; 2; 3] in
+                (* the id without a query aliases the default query q=0 *)
+                let aliases = if k mod 2 = 0 then nat_of_int nn :: aliases else aliases in
                 push (Trace.TQueryAnswered aliases)
               | None -> ())
            | None -> ());
